@@ -293,14 +293,15 @@ Section ParFaultLog.
 End ParFaultLog.
 
 (** * 3. The pass *)
-Record PassLogPF (x : nid) (s s' : state) : Prop := {
+Record PassLogPF (x : nid) (e : option err) (s s' : state) : Prop := {
   (* C02 / C11: the LAST run of the current period of necessity of a node that is registered and NOT
-     QUEUED when the pass returns saw the values its inputs hold then *)
-  plq_last : forall evs pre e post n, log s' = evs ++ log s -> evs = pre ++ e :: post ->
-      ev_node e = Some n -> EvNec n ∉ pre -> Forall (fun e2 => ev_node e2 <> Some n) pre ->
-      inGraph (nd s' n) = true -> inHeap s' n = false ->
+     QUEUED when the pass returns saw the values its inputs hold then; if the pass returns no error
+     (the fault was not reached) this holds for every registered node, the Always nodes included *)
+  plq_last : forall evs pre e0 post n, log s' = evs ++ log s -> evs = pre ++ e0 :: post ->
+      ev_node e0 = Some n -> EvNec n ∉ pre -> Forall (fun e2 => ev_node e2 <> Some n) pre ->
+      inGraph (nd s' n) = true -> (e = None \/ inHeap s' n = false) ->
       recomputedAt (nd s' n) = stabNum s /\
-      match e with
+      match e0 with
       | EvInvoked _ args r => args = map (valueOf s') (decl (nd s' n)) /\ r = value (nd s' n)
       | EvCutoff _ old new true => value (nd s' n) = old
       | EvCutoff _ old new false => value (nd s' n) = new
@@ -333,7 +334,7 @@ Section ParFaultLogThm.
 
   Theorem parF_log s s' e :
     Inv s -> ValInvB s -> Tplain s -> par_plan_clean s pf = true ->
-    parStabilize pf s = Ok (s', e) -> rejected e = false -> PassLogPF x s s'.
+    parStabilize pf s = Ok (s', e) -> rejected e = false -> PassLogPF x e s s'.
   Proof.
     intros IV V TP Hcl H Hrej. pose proof (Inv_wfb s IV) as Hwf.
     destruct (wfb_transients _ Hwf) as (Hst & Hsd & Hsr & Hh).
@@ -378,8 +379,10 @@ Section ParFaultLogThm.
     assert (Hevs : forall evs, log s' = evs ++ log s -> evs = (hev ++ [EvPassEnd (classify e)]) ++ evsL ++ [EvPassStart]).
     { intros evs E. apply (app_inv_tail (log s)). rewrite <- E, Hlog, <- !app_assoc. reflexivity. }
     assert (Hvo : forall p, valueOf s' p = valueOf sL p) by (intros p; apply valueOf_nodes, Hn).
-    assert (HqL : forall n, inHeap s' n = false -> inP sL [] n = false).
+    assert (HqL : forall n, (e = None \/ inHeap s' n = false) -> inP sL [] n = false).
     { intros n Hq. rewrite inP_nil. destruct (inHeap sL n) eqn:E; [|reflexivity]. apply (inHeap_iff0 sL n IL) in E.
+      destruct Hq as [Hq|Hq].
+      { exfalso. destruct He as [[_ Hemp]|[He _]]; [rewrite Hemp in E; inversion E|rewrite Hq in He; discriminate He]. }
       apply MR in E. apply (inHeap_iff0 s2 n IR) in E. unfold inHeap in Hq, E. rewrite Eh in Hq. congruence. }
     assert (Hall : allcnt ((hev ++ [EvPassEnd (classify e)]) ++ evsL ++ [EvPassStart])).
     { assert (Hn2 : forall n, EvNec n ∉ [EvPassStart]).
@@ -479,11 +482,46 @@ Qed.
 
 Theorem parF_log_any x w k s s' e :
   Inv s -> ValInvB s -> Tplain s -> par_plan_clean s (fplan x w k) = true ->
-  parStabilize (fplan x w k) s = Ok (s', e) -> rejected e = false -> PassLogPF x s s'.
+  parStabilize (fplan x w k) s = Ok (s', e) -> rejected e = false -> PassLogPF x e s s'.
 Proof.
   destruct k.
   - exact (parF_log x w FErr (faultStep_err x w) eq_refl (faultShape_err x w) s s' e).
   - exact (parF_log x w FPanic (faultStep_panic x w) eq_refl (faultShape_panic x w) s s' e).
+Qed.
+
+(** * 4b. Var writes and one fault in one plan: the log is that of the pass with the fault alone *)
+Theorem parM_log s p x w k s' e :
+  Inv s -> ValInvB s -> Tplain s -> plan_ok s p = true -> par_plan_clean s p = true -> fo p = fplan x w k ->
+  parStabilize p s = Ok (s', e) -> rejected e = false ->
+  exists t', parStabilize (fplan x w k) s = Ok (t', e) /\ PassLogPF x e s t' /\ log s' = log t' /\
+    (forall m, vps (nd t' m) (nd s' m)) /\ (forall m, inHeap t' m = true -> inHeap s' m = true).
+Proof.
+  intros IV V TP Hpok Hcl Hfo H Hrej.
+  pose proof (par_plan_clean_fo s p Hcl) as Hclf. rewrite Hfo in Hclf.
+  assert (HFS : faultStep x w k) by (destruct k; [apply faultStep_err|apply faultStep_panic]).
+  assert (Hfe : rejected (Some (faultErr x k)) = false) by (destruct k; reflexivity).
+  destruct (par_mixed_bb s p s' e IV V TP Hpok Hcl H Hrej) as (t' & H0 & K).
+  { intros tL al ET. rewrite Hfo in ET.
+    pose proof (LInvP_start s IV V) as L1. pose proof (Inv_PInv_start s IV) as P1.
+    assert (Hnd0 : forall y, isDone (EngineLocal.passStart s) y = false).
+    { intros y. unfold isDone. apply Z.eqb_neq. pose proof (stamps_node_true _ _ (vb_stamps _ V y)).
+      change (recomputedAt (nd s y) <> stabNum s). lia. }
+    assert (HA1 : AW (EngineLocal.passStart s) []) by (intros y _ Hd _; rewrite Hnd0 in Hd; discriminate).
+    assert (Hx1 : okx x w (EngineLocal.passStart s)).
+    { intros Hw. subst w. unfold fplan, par_plan_clean in Hclf. cbn in Hclf. rewrite andb_true_r in Hclf.
+      change (nodes (EngineLocal.passStart s) !! x) with (nodes s !! x). unfold has.
+      change (nd (EngineLocal.passStart s) x) with (nd s x). unfold nd.
+      destruct (nodes s !! x) as [y|] eqn:Ex; [|discriminate]. split; [eauto|]. cbn.
+      destruct (nkind y); try reflexivity. discriminate. }
+    assert (Hn1 : ndx x w (EngineLocal.passStart s)) by (intros _ _; apply Hnd0).
+    destruct (loopPF x w k HFS Hfe _ (EngineLocal.passStart s) [] tL e al
+                (Tplain_binds s (EngineLocal.passStart s) eq_refl TP) P1 L1 HA1 Hx1 Hn1 ET) as [Rj|(_ & _ & LL & _)].
+    - exfalso. destruct Rj as [-> | ->]; discriminate Hrej.
+    - exact (lp_quiet _ _ LL). }
+  rewrite Hfo in H0.
+  destruct (parF_any x w k s t' e IV V TP Hclf H0 Hrej) as (He & _ & Vt & Tt & Ct & _ & Hq).
+  destruct (K Vt Tt Ct) as (_ & _ & _ & _ & E & F & G).
+  exists t'. split; [exact H0|]. split; [exact (parF_log_any x w k s t' e IV V TP Hclf H0 Hrej)|auto].
 Qed.
 
 (** * 5. Non-vacuity: [exPF_ops], then a parallel pass in which the function of node 4 panics: the
